@@ -2,8 +2,8 @@
 # usage: seed_take.sh <prop> <suffix> "<needs to manifest>"   -- copy the sub-agent's deliverables, confirm, write meta.json
 P=$1; S=$2; N=$3
 D=/verif/seeded/$P-$S
-mkdir -p $D && cp -r /tmp/seeds/w_$P/seed_out/* $D/ && rm -rf $D/__pycache__
-BASE=$(python3 -c "import json;print(json.load(open('/verif/tools/seed_bases.json'))['$P'])")
+mkdir -p $D && cp -r ${SRC:-/tmp/seeds/w_$P}/seed_out/* $D/ && rm -rf $D/__pycache__
+BASE=$(python3 -c "import json;b=json.load(open('/verif/tools/seed_bases.json'));print(b.get('$P-$S') or b['$P'])")
 BASE=$BASE /verif/tools/seed_confirm.sh $D > /tmp/seeds/confirm_$P-$S.log 2>&1
 tail -8 /tmp/seeds/confirm_$P-$S.log
 if grep -q "RESULT demo0=0 pinned1=0 demo1=[1-9]" /tmp/seeds/confirm_$P-$S.log; then
